@@ -17,6 +17,9 @@ Space(n) ==
     [] n = "s2"   -> <<[lo |-> <<0, 0>>, hi |-> <<1, B - 1>>]>>
     [] n = "s2w"  -> <<[lo |-> <<0, 0>>, hi |-> <<B - 1, B - 1>>]>>
     [] n = "mix"  -> <<[lo |-> <<0>>, hi |-> <<1>>], [lo |-> <<2, 0>>, hi |-> <<2, B - 1>>]>>
+    \* mixed lengths where the longer codes start with byte 0 (concretised as 0x00): a run of
+    \* consecutive last bytes can cross from one code length to the other, <0,0> <1> <2> <0,3>
+    [] n = "mix0" -> <<[lo |-> <<1>>, hi |-> <<2>>], [lo |-> <<0, 0>>, hi |-> <<0, B - 1>>]>>
     [] n = "mixw" -> <<[lo |-> <<0>>, hi |-> <<1>>], [lo |-> <<2, 0>>, hi |-> <<B - 1, B - 1>>]>>
     [] n = "s3"   -> <<[lo |-> <<0, 0, 0>>, hi |-> <<1, B - 1, B - 1>>]>>
 IsCID(f) == f = "cid"
